@@ -64,8 +64,13 @@ fn rename_free(t: &T, scope: &mut Vec<String>, map: &HashMap<String, String>) ->
 
 /// Obligations for one sub-tree: renaming total + injective on free variables and consistent with
 /// the canonical text; canonising the canonical form changes nothing.
+/// The text the library stores for this sub-tree (what evaluation and marking really canonise).
+fn lib_text(t: &T) -> String {
+    t.to_lib().to_string()
+}
+
 pub fn check_one(t: &T) -> Option<String> {
-    let text = t.render();
+    let text = lib_text(t);
     let r = guarded(|| {
         let (canon, renaming) = get_canonical_and_renaming(text.clone());
         if get_canonical(text.clone()) != canon {
@@ -205,7 +210,7 @@ pub fn replay(case: &Value) -> Option<String> {
     }
     if let Some(p) = case.get("pair") {
         let pair: Vec<T> = serde_json::from_value(p.clone()).ok()?;
-        let (ca, cb) = (get_canonical(pair[0].render()), get_canonical(pair[1].render()));
+        let (ca, cb) = (get_canonical(lib_text(&pair[0])), get_canonical(lib_text(&pair[1])));
         let ae = alpha_eq(&pair[0], &pair[1]);
         if (ca == cb) != ae {
             return Some(format!("canonical forms {} / {} but alpha_eq = {ae}", ca, cb));
@@ -225,7 +230,7 @@ fn alphabet(ext: bool) -> TreeAlphabet {
         wilds: if ext { s(&["p"]) } else { vec![] },
         doms: if ext { s(&["d", "e"]) } else { vec![] },
         un: vec![Un::Not, Un::AX],
-        bi: vec![Bi::And, Bi::EU],
+        bi: crate::formulas::ALL_BI.to_vec(),
         quant: vec![Hy::Bind, Hy::Forall],
         jump: true,
     }
@@ -294,7 +299,7 @@ pub fn run(tier: &str) -> Result<Report, String> {
     rep.evaluations += subs.len() as u64;
     rep.violations.extend(bad.into_iter().take(50));
     // partition check (equivalent to all pairs): canonical text <-> independent normal form
-    let canon: Vec<String> = subs.par_iter().map(|t| guarded(|| get_canonical(t.render())).unwrap_or_else(|p| format!("<panic {p}>"))).collect();
+    let canon: Vec<String> = subs.par_iter().map(|t| guarded(|| get_canonical(lib_text(t))).unwrap_or_else(|p| format!("<panic {p}>"))).collect();
     let nf: Vec<T> = subs.par_iter().map(normal_form).collect();
     let mut by_canon: HashMap<&String, usize> = HashMap::new();
     let mut by_nf: HashMap<&T, usize> = HashMap::new();
